@@ -513,6 +513,39 @@ def chk_derivation(rng):
                 if accepted != (1 <= k <= 2):
                     fails.append(rec('derivation', 'untyped %s SIZE(1..2) with %d elements is %s by the %s encoder' % (
                         cls.__name__, k, 'accepted' if accepted else 'refused', ename), kind='encode-constructed'))
+    # ... records declared without components (members by position, names made up), and a CHOICE with a forbidden alternative
+    for cls in (univ.Sequence, univ.Set):
+        for k in (0, 1, 2, 3):
+            v = cls(subtypeSpec=C.ValueSizeConstraint(1, 2))
+            if k == 0:
+                v.clear()
+            for i in range(k):
+                v.setComponentByPosition(i, (univ.Integer(i), univ.OctetString(b'x'), univ.Boolean(True))[i])
+            for ename, enc in (('BER', be_), ('CER', ce_), ('DER', de), ('native', ne_)):
+                n += 1
+                try:
+                    enc.encode(v)
+                    accepted = True
+                except perror.PyAsn1Error:
+                    accepted = False
+                if accepted != (1 <= k <= 2):
+                    fails.append(rec('derivation', 'untyped %s SIZE(1..2) with %d components is %s by the %s encoder' % (
+                        cls.__name__, k, 'accepted' if accepted else 'refused', ename), kind='encode-constructed'))
+    CH = univ.Choice(componentType=namedtype.NamedTypes(namedtype.NamedType('a', univ.Integer()), namedtype.NamedType('b', univ.Boolean())),
+                     subtypeSpec=C.WithComponentsConstraint(('a', C.ComponentAbsentConstraint())))
+    for name, val, ok in (('a', 5, False), ('b', True, True)):
+        c = CH.clone()
+        c[name] = val
+        for ename, enc in (('BER', be_), ('CER', ce_), ('DER', de), ('native', ne_)):
+            n += 1
+            try:
+                enc.encode(c)
+                accepted = True
+            except perror.PyAsn1Error:
+                accepted = False
+            if accepted != ok:
+                fails.append(rec('derivation', 'CHOICE (WITH COMPONENTS {a ABSENT}) holding %s is %s by the %s encoder' % (
+                    name, 'accepted' if accepted else 'refused', ename), kind='encode-constructed'))
     return fails, n
 
 
